@@ -59,7 +59,7 @@ func TestProp(t *testing.T) {
 	defer run.Finish()
 
 	snapRule := "a generated program (shared generator: all statement kinds, seeded dice of every enabled family, functions incl. recursive, computed values with attributes; plus C09's value trees: nested/mixed containers, extreme ints, long-fraction floats, Unicode/control characters in strings and keys, empty containers, functions and computed values inside containers) is cut into 1..5 segments; after a prefix the store of VM_A is serialised (ValueMap.ToJSON, or VMValue.ToJSON per variable) and decoded into a fresh VM_B with the same configuration and A's current generator state; oracle: restored store structurally equal, second round trip identical up to key order, and every remaining segment gives equal error-ness, Ret, Matched/RestInput, process text, variables, generator state and operation count on A and B. Aliasing between variables is excluded by construction and by a dynamic check (open finding). Non-trivial = a function/computed value of the snapshot is lazily compiled by a follow-up, or the snapshot holds a container nested >= 2 deep; distinct by segments+cut+mode"
-	run.Check("snap", 12000, 120000, snapRule, func(t *rapid.T, s *rt.Section) {
+	run.Check("snap", 12000, 100000, snapRule, func(t *rapid.T, s *rt.Section) {
 		c := drawSnap(t, run.AvoidOn(avoidAlias))
 		s.Eval()
 		s.Crumb(c)
